@@ -72,6 +72,18 @@ func opCborProg(args []Sx) Sx {
 	return OkV(B(buf.Bytes()))
 }
 
+// cbor_prog_cont items... : like cbor_prog, but a refused call does not end the program: the SAME encoder is
+// used for the remaining calls (a refused call must leave nothing behind).  (bytes (1/0 per item))
+func opCborProgCont(args []Sx) Sx {
+	var buf bytes.Buffer
+	e := vh.CborNewEncoder(&buf)
+	oks := []Sx{}
+	for _, it := range args {
+		oks = append(oks, Bool(runItem(e, it) == nil))
+	}
+	return L(B(buf.Bytes()), L(oks...))
+}
+
 // ---- cbor_dec: a sequence of decode calls on one reader -------------------
 
 // a reader that hides Len()/WriterTo of the underlying bytes.Reader (like a file or a network body)
@@ -215,6 +227,7 @@ func opCborMapTwice(args []Sx) (res Sx) {
 
 func init() {
 	regOp("cbor_map_twice", opCborMapTwice)
+	regOp("cbor_prog_cont", opCborProgCont)
 	regOp("cbor_dec_segments", opCborDecSegments)
 	regOp("cbor_prog", opCborProg)
 	regOp("cbor_dec", opCborDec)
